@@ -87,17 +87,24 @@ impl BDecoder {
         pos: usize,
         first_num: &u8,
     ) -> Result<(Vec<u8>, Vec<u8>), Error> {
+        let mut it_start = it.clone();
         let mut len_bytes = vec![*first_num];
         let mut rest_len_bytes: Vec<_> = it
             .take_while(|(_, &b)| b != b':')
             .map(|(_, &b)| b)
             .collect();
+        let delimiter = it_start.nth(rest_len_bytes.len());
         len_bytes.append(&mut rest_len_bytes);
         let mut str_raw = len_bytes.clone();
         str_raw.push(b':');
 
         if !len_bytes.iter().all(|b| (b'0'..=b'9').contains(b)) {
             return Err(Error::DecodeIncorrectChar("parse_byte_str", pos));
+        }
+
+        // take_while stops silently at the end of the input: the length must end with ':'
+        if let None = delimiter {
+            return Err(Error::DecodeNotEnoughChars("parse_byte_str", pos));
         }
 
         let len_str = match String::from_utf8(len_bytes) {
